@@ -61,6 +61,14 @@ def eval_case(spec, case, traces, out, record=True):
     """traces: {backend: trace}. returns list of (kind, msg, backend, index)"""
     probs = []
     for backend, trace in traces.items():
+        if case.meta.get("overlap"):
+            from .props_conc import overlap_oracle
+            for msg in overlap_oracle(spec.id, case, trace, backend):
+                probs.append(("oracle", f"{backend}: {msg}", backend, None))
+            if record:
+                out.evaluations += 1
+                out.distinct.add(case.name + backend)
+            continue
         if hasattr(spec, "normalize"):
             trace = spec.normalize(trace)
         i = first_divergence(trace)
@@ -153,6 +161,9 @@ def run_l1_property(spec, tier, seed, replay=None, proof=None):
                     rp = json.load(open(os.path.join(cdir, f)))
                     cases.append(Case("corpus-" + f[:-5], rp["symbolic_ops"], rp.get("meta"), mode=rp.get("mode", getattr(spec, "mode", "lib"))))
         cases += spec.cases(rng, tier)
+        if getattr(spec, "overlap", False):
+            from .props_conc import overlap_cases
+            cases += overlap_cases(spec.id, rng, tier)
     results = {b: run_cases(binp, cases, b, seed) for b in spec.backends}
     problems = []
     for c in cases:
